@@ -184,6 +184,16 @@ pub enum PdfError {
     Invalid,
 }
 impl PdfError {
+    /// the error says that a referenced object does not exist (free, never defined, or
+    /// beyond the cross-reference table), looking through the wrappers added on the way up
+    pub fn is_missing_object(&self) -> bool {
+        match self {
+            PdfError::NullRef { .. } | PdfError::FreeObject { .. } | PdfError::UnspecifiedXRefEntry { .. } => true,
+            PdfError::Try { ref source, .. } => source.is_missing_object(),
+            PdfError::Shared { ref source } => source.is_missing_object(),
+            _ => false
+        }
+    }
     pub fn is_eof(&self) -> bool {
         match self {
             PdfError::EOF => true,
